@@ -16,12 +16,12 @@ ROWS = ["c1_t0", "c1_t1ns", "c1_t300ms", "c1_t2500ms", "c7_t1ns", "c7_t100ms", "
 
 HARNESSES = [
     KH("O19.1a", "c19_o1_step_invariants", "TokenBucket::try_consume one step from an arbitrary valid state: invariant, time consumed once, refusal semantics",
-       functions=F, bounds="capacity in [1,1e6], tokens any f64 in [0,cap], elapsed any (s,ns) <= 1e4 s; unwind 4 (Timespec recursion)"),
+       functions=F, bounds="capacity in [1,1e6], tokens any f64 in [0,cap], elapsed any (s,ns) <= 1e4 s; unwind 4 (Timespec recursion)", replay="solver-only"),
     KH("O19.1c", "c19_o1_refund_one", "TokenBucket::refund_one: at most one token back, never above capacity",
        functions=F, bounds="capacity in [1,1e6], tokens any f64 in [0,cap]"),
 ] + [
     KH("O19.1b/" + r, "c19_o1_amount_" + r, "refill amount / credit conservation for concrete (capacity, elapsed) row " + r,
-       functions=F, bounds="row %s concrete; tokens any f64 in [0,cap]; eps 1e-6" % r, tier=("quick" if i % 2 == 0 else "thorough"))
+       functions=F, bounds="row %s concrete; tokens any f64 in [0,cap]; eps 1e-6" % r, tier=("quick" if i % 2 == 0 else "thorough"), replay="solver-only")
     for i, r in enumerate(ROWS)
 ]
 
